@@ -21,7 +21,8 @@ plan terms `tools/props/c01.py` compares with the real `sample(n)` bit for bit):
 generated definitions.
 
 The glue between the by-label reading of the generated code and the positional fitted state of the model (`ppfOf`,
-`extOf`, `genFitted`, `drawsOf`) is in `Lemmas/GaussSampleGen.lean`.  Distinct labels (`Nodup`) are assumed exactly where `Props/C01.lean` assumes them.
+`extOf`, `genFitted`, `drawsOf`) is in `Lemmas/GaussSampleGen.lean` (core Lean; the driver runs the generated
+definitions through the same glue).  Distinct labels (`Nodup`) are assumed exactly where `Props/C01.lean` assumes them.
 -/
 set_option linter.unusedTactic false
 set_option linter.unreachableTactic false
